@@ -24,8 +24,10 @@ class Gen(object):
         r = self.rng.random()
         if d <= 0 or r < 0.35:
             return self.ident()
-        if r < 0.45:
+        if r < 0.42:
             return str(self.rng.randrange(10))
+        if r < 0.45:
+            return repr(self.rng.choice(['q\nr', 'line one\nline two\n', 's']))
         if r < 0.6:
             return '%s + %s' % (self.expr(d - 1), self.expr(d - 1))
         if r < 0.7:
